@@ -15,7 +15,8 @@ fi
 if [ -n "$(git -C $REPO status --porcelain)" ]; then echo "$ID: $REPO not clean, refusing"; exit 3; fi
 if git -C $REPO apply --check $D/patch.diff 2>/dev/null; then git -C $REPO apply $D/patch.diff; HOW=apply
 elif git -C $REPO apply --3way $D/patch.diff >/dev/null 2>&1; then HOW=3way; git -C $REPO reset -q
-else echo "$ID: patch does not apply to $(git -C $REPO log -1 --format=%h)"
+else git -C $REPO reset -q --hard; git -C $REPO clean -fdq
+  echo "$ID: patch does not apply to $(git -C $REPO log -1 --format=%h)"
   python3 - <<P
 import json
 json.dump({"property":"$ID","applies":False,"base":"$(git -C $REPO log -1 --format=%h)"},open("$D/result.json","w"),indent=1)
